@@ -506,7 +506,7 @@ pub fn run(ctx: &Ctx, model: &mut Model, rep: &mut Report) {
             rep.fail(json!({"kind": "normalize", "files": f.witness["files"], "what": format!("regression of repaired defect {}: {}", f.id, w)}));
         }
     }
-    let n = if ctx.thorough { 60 } else { 6 };
+    let n = if ctx.thorough { 60 } else { 10 };
     for i in 0..n {
         let mut r = Rng::for_case(ctx.seed ^ 0xC19, i as u64);
         let files = gen_tree(&mut r, false);
